@@ -18,8 +18,8 @@ Definition color_of (st : style) (k : point_type) : option Z :=
 Definition colored (oc : option Z) (ps : list point) : list (point * Z) :=
   match oc with Some c => map (fun p => (p, c)) ps | None => [] end.
 
-(* what pixels() is meant to be: the points of every scanline that has a colour, in generator order *)
-Definition tri_pixels_ref (st : style) (lines : list (scanline * point_type)) : list (point * Z) :=
+(* the consumer, flat: the points of every scanline that has a colour, in sequence order *)
+Definition tri_pixels_ref (st : style) (lines : list tline) : list (point * Z) :=
   flat_map (fun lk => colored (color_of st (snd lk)) (sl_points (fst lk))) lines.
 
 Definition tsp_kind_color (s : tsp_state) (k : point_type) : option Z :=
@@ -28,52 +28,67 @@ Definition tsp_kind_color (s : tsp_state) (k : point_type) : option Z :=
 (* what a state still has to yield *)
 Definition tsp_den (s : tsp_state) : list (point * Z) :=
   colored (tsp_color s) (tsp_current s) ++
-  flat_map (fun lk => colored (tsp_kind_color s (snd lk)) (sl_points (fst lk))) (tsp_lines s).
+  flat_map (fun lk => colored (tsp_kind_color s (snd lk)) (sl_points (fst lk))) (gen_run (tsp_gen s)).
 
 Lemma colored_nil oc : colored oc [] = [].
 Proof. destruct oc; reflexivity. Qed.
 
+(* one call of ScanlineIterator::next against the sequence up to the first None *)
+Lemma gen_next_run g :
+  match gen_next g with
+  | (Some x, g') => gen_run g = x :: gen_run g' /\ gen_size g = Datatypes.S (gen_size g')
+  | (None, g') => gen_run g = [] /\ (gen_size g' <= gen_size g)%nat
+  end.
+Proof.
+  destruct g as [cur rows]. unfold gen_next, gen_run, gen_size. cbn [g_cur g_rows].
+  destruct cur as [|x r].
+  - destruct rows as [|row rest].
+    + cbn [g_cur g_rows gen_go app length fold_right]. split; [reflexivity | lia].
+    + destruct row as [|x r]; cbn [g_cur g_rows gen_go app length fold_right]; split; try reflexivity; lia.
+  - cbn [g_cur g_rows app length]. split; [reflexivity | lia].
+Qed.
+
 Lemma tsp_next_spec fuel : forall s,
-  (length (tsp_lines s) < fuel)%nat ->
+  (gen_size (tsp_gen s) < fuel)%nat ->
   exists r s', tsp_next fuel s = Some (r, s') /\
-    (length (tsp_lines s') <= length (tsp_lines s))%nat /\
+    (gen_size (tsp_gen s') <= gen_size (tsp_gen s))%nat /\
     match r with
     | Some pc => tsp_den s = pc :: tsp_den s'
     | None => tsp_den s = []
     end.
 Proof.
   induction fuel as [|k IH]; intros s Hf; [lia|].
-  destruct s as [lines cur col fc sc]. cbn [tsp_lines] in Hf.
+  destruct s as [g cur col fc sc]. cbn [tsp_gen] in Hf.
   assert (Hfetch : colored col cur = [] ->
     exists r s',
-      match lines with
-      | [] => Some (None, TSP lines cur col fc sc)
-      | (l, kd) :: rest =>
-          tsp_next k (TSP rest (sl_points l) (match kd with PTStroke => sc | PTFill => fc end) fc sc)
+      match gen_next g with
+      | (None, g') => Some (None, TSP g' cur col fc sc)
+      | (Some (l, kd), g') =>
+          tsp_next k (TSP g' (sl_points l) (match kd with PTStroke => sc | PTFill => fc end) fc sc)
       end = Some (r, s') /\
-      (length (tsp_lines s') <= length lines)%nat /\
+      (gen_size (tsp_gen s') <= gen_size g)%nat /\
       match r with
-      | Some pc => tsp_den (TSP lines cur col fc sc) = pc :: tsp_den s'
-      | None => tsp_den (TSP lines cur col fc sc) = []
+      | Some pc => tsp_den (TSP g cur col fc sc) = pc :: tsp_den s'
+      | None => tsp_den (TSP g cur col fc sc) = []
       end).
-  { intros Hnil. destruct lines as [|[l kd] rest].
-    - eexists _, _. split; [reflexivity|]. split; [cbn [tsp_lines]; lia|].
-      unfold tsp_den. cbn [tsp_color tsp_current tsp_lines flat_map]. rewrite Hnil. reflexivity.
-    - cbn [length] in Hf.
-      destruct (IH (TSP rest (sl_points l) (match kd with PTStroke => sc | PTFill => fc end) fc sc)) as (r & s' & Hn & Hl & Hd).
-      { cbn [tsp_lines]. lia. }
-      exists r, s'. split; [exact Hn|]. cbn [tsp_lines length] in Hl |- *. split; [lia|].
-      assert (E : tsp_den (TSP ((l, kd) :: rest) cur col fc sc) =
-                  tsp_den (TSP rest (sl_points l) (match kd with PTStroke => sc | PTFill => fc end) fc sc)).
-      { unfold tsp_den, tsp_kind_color. cbn [tsp_color tsp_current tsp_lines tsp_fill tsp_stroke flat_map fst snd].
-        rewrite Hnil. reflexivity. }
-      rewrite E. exact Hd. }
-  cbn [tsp_next tsp_lines tsp_current tsp_color tsp_fill tsp_stroke].
+  { intros Hnil. pose proof (gen_next_run g) as Hg. destruct (gen_next g) as [[[l kd]|] g'].
+    - destruct Hg as [Hrun Hsz].
+      destruct (IH (TSP g' (sl_points l) (match kd with PTStroke => sc | PTFill => fc end) fc sc)) as (r & s' & Hn & Hl & Hd).
+      { cbn [tsp_gen]. lia. }
+      exists r, s'. split; [exact Hn|]. cbn [tsp_gen] in Hl. split; [lia|].
+      assert (E : tsp_den (TSP g cur col fc sc) =
+                  tsp_den (TSP g' (sl_points l) (match kd with PTStroke => sc | PTFill => fc end) fc sc)).
+      { unfold tsp_den, tsp_kind_color. cbn [tsp_color tsp_current tsp_gen tsp_fill tsp_stroke].
+        rewrite Hnil, Hrun. cbn [flat_map fst snd app]. reflexivity. }
+      rewrite E. exact Hd.
+    - destruct Hg as [Hrun Hsz]. eexists _, _. split; [reflexivity|]. cbn [tsp_gen]. split; [lia|].
+      unfold tsp_den. cbn [tsp_color tsp_current tsp_gen]. rewrite Hnil, Hrun. reflexivity. }
+  cbn [tsp_next tsp_gen tsp_current tsp_color tsp_fill tsp_stroke].
   destruct col as [c|].
   - destruct cur as [|p r].
     + apply Hfetch. reflexivity.
-    + eexists _, _. split; [reflexivity|]. split; [cbn [tsp_lines]; lia|].
-      unfold tsp_den. cbn [tsp_color tsp_current tsp_lines tsp_fill tsp_stroke colored map app]. reflexivity.
+    + eexists _, _. split; [reflexivity|]. split; [cbn [tsp_gen]; lia|].
+      unfold tsp_den. cbn [tsp_color tsp_current tsp_gen tsp_fill tsp_stroke colored map app]. reflexivity.
   - apply Hfetch. reflexivity.
 Qed.
 
@@ -95,32 +110,79 @@ Proof.
   - symmetry. exact Hd.
 Qed.
 
-Lemma tsp_den_new st lines : tsp_den (tsp_new st lines) = tri_pixels_ref st lines.
+Lemma tsp_den_new st rows : tsp_den (tsp_new st rows) = tri_pixels_ref st (pixels_sequence rows).
 Proof.
-  unfold tsp_new, tri_pixels_ref. destruct lines as [|[l k] rest].
-  - unfold tsp_den. cbn [tsp_color tsp_current tsp_lines flat_map]. rewrite colored_nil. reflexivity.
-  - unfold tsp_den, tsp_kind_color, color_of. cbn [tsp_color tsp_current tsp_lines tsp_fill tsp_stroke flat_map fst snd].
-    f_equal.
+  unfold tsp_new, tri_pixels_ref, pixels_sequence. destruct (gen_next (gen_new rows)) as [[[l k]|] g].
+  - unfold tsp_den, tsp_kind_color, color_of. cbn [tsp_color tsp_current tsp_gen tsp_fill tsp_stroke flat_map fst snd].
+    reflexivity.
+  - unfold tsp_den, tsp_kind_color, color_of. cbn [tsp_color tsp_current tsp_gen tsp_fill tsp_stroke].
+    rewrite colored_nil. reflexivity.
 Qed.
 
 Lemma colored_length oc ps : (length (colored oc ps) <= length ps)%nat.
 Proof. destruct oc; cbn [colored]; [rewrite map_length|cbn [length]]; lia. Qed.
 
-Lemma tri_pixels_ref_length st lines : (length (tri_pixels_ref st lines) < tsp_fuel lines)%nat.
+Definition lines_weight (lines : list tline) : nat :=
+  fold_right (fun lk acc => (length (sl_points (fst lk)) + acc)%nat) O lines.
+
+Lemma lines_weight_app a b : lines_weight (a ++ b) = (lines_weight a + lines_weight b)%nat.
+Proof. unfold lines_weight. induction a as [|x a IH]; cbn [app fold_right]; [reflexivity|]. rewrite IH. lia. Qed.
+
+Lemma gen_go_weight rows : (lines_weight (gen_go rows) <= lines_weight (concat rows))%nat.
 Proof.
-  unfold tri_pixels_ref, tsp_fuel.
-  assert (length (flat_map (fun lk => colored (color_of st (snd lk)) (sl_points (fst lk))) lines) <=
-          fold_right (fun lk acc => (length (sl_points (fst lk)) + acc)%nat) O lines)%nat.
-  { induction lines as [|x r IH]; cbn [flat_map fold_right length]; [lia|].
-    rewrite app_length. pose proof (colored_length (color_of st (snd x)) (sl_points (fst x))). lia. }
-  lia.
+  induction rows as [|r rest IH]; cbn [gen_go concat]; [lia|]. rewrite lines_weight_app.
+  destruct r as [|x r]; [cbn; lia|]. rewrite lines_weight_app. lia.
 Qed.
 
-(* pixels() = the flat list, for ANY generator output *)
-Theorem tri_styled_pixels_spec st lines : tri_styled_pixels st lines = tri_pixels_ref st lines.
+Lemma pixels_sequence_weight rows : (lines_weight (pixels_sequence rows) <= lines_weight (concat rows))%nat.
+Proof.
+  unfold pixels_sequence, gen_new, gen_next.
+  destruct rows as [|r rest]; [cbn; lia|]. cbn [g_cur g_rows concat]. rewrite lines_weight_app.
+  destruct r as [|x r].
+  - destruct rest as [|r2 rest2]; [cbn; lia|]. cbn [concat]. rewrite lines_weight_app.
+    pose proof (gen_go_weight rest2). destruct r2 as [|x2 r2]; unfold gen_run; cbn [g_cur g_rows app].
+    + cbn. lia.
+    + change (x2 :: r2 ++ gen_go rest2) with ((x2 :: r2) ++ gen_go rest2). rewrite lines_weight_app. lia.
+  - unfold gen_run. cbn [g_cur g_rows]. pose proof (gen_go_weight rest).
+    change (x :: r ++ gen_go rest) with ((x :: r) ++ gen_go rest). rewrite lines_weight_app. lia.
+Qed.
+
+Lemma tri_pixels_ref_length st lines : (length (tri_pixels_ref st lines) <= lines_weight lines)%nat.
+Proof.
+  unfold tri_pixels_ref, lines_weight. induction lines as [|x r IH]; cbn [flat_map fold_right length]; [lia|].
+  rewrite app_length. pose proof (colored_length (color_of st (snd x)) (sl_points (fst x))). lia.
+Qed.
+
+(* pixels() = the consumer over the sequence pixels() sees, for ANY rows of the generator *)
+Theorem tri_styled_pixels_spec st rows : tri_styled_pixels st rows = tri_pixels_ref st (pixels_sequence rows).
 Proof.
   unfold tri_styled_pixels. rewrite tsp_collect_spec; rewrite tsp_den_new; [reflexivity|].
-  apply tri_pixels_ref_length.
+  pose proof (tri_pixels_ref_length st (pixels_sequence rows)). pose proof (pixels_sequence_weight rows).
+  unfold tsp_fuel. fold (lines_weight (concat rows)). lia.
+Qed.
+
+(* The two consumers see the same sequence unless the first TWO rows of the bounding box yield nothing and a later row does:
+   then draw()'s `for` loop ends at once while pixels() swallows the first None and goes on. *)
+Definition first_rows_ok (rows : list (list tline)) : Prop :=
+  match rows with
+  | [] :: [] :: rest => gen_go rest = []
+  | _ => True
+  end.
+
+Lemma pixels_sequence_for rows : first_rows_ok rows -> pixels_sequence rows = for_sequence rows.
+Proof.
+  unfold first_rows_ok, pixels_sequence, for_sequence, gen_new, gen_next, gen_run.
+  destruct rows as [|r rest]; [reflexivity|]. cbn [g_cur g_rows].
+  destruct r as [|x r]; [|reflexivity].
+  destruct rest as [|r2 rest2]; [reflexivity|]. destruct r2 as [|x2 r2]; cbn [g_cur g_rows gen_go app].
+  - intros ->. reflexivity.
+  - reflexivity.
+Qed.
+
+Lemma pixels_sequence_unfold rows :
+  pixels_sequence rows = match rows with [] :: [] :: rest => gen_go rest | _ => for_sequence rows end.
+Proof.
+  destruct rows as [|[|x r] [|[|x2 r2] rest2]]; try reflexivity.
 Qed.
 
 (* ======================================================================== *)
@@ -173,12 +235,11 @@ Proof.
   destruct (0 <? stroke_width st) eqn:E; [exfalso; cbn [orb andb] in H; lia | reflexivity].
 Qed.
 
-(* triangle_glue_pixels_draw (DESIGN C01 b): for ANY generator output, the fill_solid calls of draw() write exactly
-   the pixels of pixels(), in the same order *)
-Theorem tri_glue_pixels_draw st lines : Forall (fun lk => sl_ok (fst lk)) lines ->
-  flat_map fill_writes (tri_draw_styled st lines) = tri_styled_pixels st lines.
+(* the consumer of draw() writes what the consumer of pixels() yields, on the same sequence *)
+Lemma tri_draw_writes st lines : Forall (fun lk => sl_ok (fst lk)) lines ->
+  flat_map fill_writes (tri_draw_styled st lines) = tri_pixels_ref st lines.
 Proof.
-  intros Hok. rewrite tri_styled_pixels_spec. unfold tri_draw_styled, tri_pixels_ref.
+  intros Hok. unfold tri_draw_styled, tri_pixels_ref.
   destruct (is_transparent st) eqn:T.
   - destruct (transparent_colors st T) as [E1 E2]. cbn [flat_map].
     induction lines as [|[l k] r IH]; [reflexivity|]. cbn [flat_map fst snd].
@@ -188,6 +249,29 @@ Proof.
     fold (color_of st k). destruct (color_of st k) as [c|]; [|reflexivity]. cbn [colored].
     rewrite <- (scanline_rect_writes l c Hl).
     destruct (negb (is_zero_sized (sl_to_rectangle l))); cbn [flat_map]; [apply app_nil_r | reflexivity].
+Qed.
+
+Lemma Forall_gen_go (Q : tline -> Prop) rows : Forall (Forall Q) rows -> Forall Q (gen_go rows).
+Proof.
+  induction 1 as [|r rest Hr Hrest IH]; cbn [gen_go]; [constructor|].
+  destruct r; [constructor|]. apply Forall_app. split; assumption.
+Qed.
+
+Lemma Forall_for_sequence (Q : tline -> Prop) rows : Forall (Forall Q) rows -> Forall Q (for_sequence rows).
+Proof.
+  intros H. unfold for_sequence, gen_new, gen_run. destruct H as [|r rest Hr Hrest]; cbn [g_cur g_rows gen_go app]; [constructor|].
+  apply Forall_app. split; [assumption | apply Forall_gen_go; assumption].
+Qed.
+
+(* triangle_glue_pixels_draw (DESIGN C01 b): for ANY rows of the scanline generator, driven through the un-fused iterator
+   protocol by both consumers, the fill_solid calls of draw() write exactly the pixels of pixels(), in the same order -
+   provided the first two rows of the bounding box are not both empty while a later one is not (first_rows_ok) *)
+Theorem tri_glue_pixels_draw st rows :
+  Forall (Forall (fun lk => sl_ok (fst lk))) rows -> first_rows_ok rows ->
+  flat_map fill_writes (tri_draw_styled st (for_sequence rows)) = tri_styled_pixels st rows.
+Proof.
+  intros Hok Hfirst. rewrite tri_styled_pixels_spec, (pixels_sequence_for rows Hfirst).
+  apply tri_draw_writes. apply Forall_for_sequence. assumption.
 Qed.
 
 (* ======================================================================== *)
@@ -291,33 +375,73 @@ Qed.
 (* 4. thin shapes: what is drawn, bounding boxes, translation                  *)
 (* ======================================================================== *)
 
-Lemma flat_map_colored_map {A} (f : A -> scanline) (g : A -> scanline * point_type) st k l :
-  (forall x, g x = (f x, k)) ->
-  flat_map (fun lk => colored (color_of st (snd lk)) (sl_points (fst lk))) (map g l) =
-  colored (color_of st k) (flat_map sl_points (map f l)).
+Lemma tri_pixels_ref_fill st c lines : fill_color st = Some c ->
+  tri_pixels_ref st (map (fun s => (s, PTFill)) lines) = map (fun p => (p, c)) (flat_map sl_points lines).
 Proof.
-  intros Hg. induction l as [|x l IH]; cbn [map flat_map]; [rewrite colored_nil; reflexivity|].
-  rewrite IH, Hg. cbn [fst snd]. destruct (color_of st k); cbn [colored]; [rewrite map_app|]; reflexivity.
+  intros F. unfold tri_pixels_ref. induction lines as [|x l IH]; [reflexivity|].
+  cbn [map flat_map fst snd]. rewrite IH, map_app. unfold color_of. rewrite F. reflexivity.
+Qed.
+
+(* the rows of the fill-only generator, and what the `for` loop sees of them: Model/Triangle.v tri_scanlines *)
+Lemma gen_go_singletons (f : Z -> scanline) ys :
+  gen_go (map (fun y => if sl_is_empty (f y) then [] else [(f y, PTFill)]) ys) =
+  map (fun s => (s, PTFill)) (take_while (fun s => negb (sl_is_empty s)) (map f ys)).
+Proof.
+  induction ys as [|y r IH]; [reflexivity|]. cbn [map gen_go take_while].
+  destruct (sl_is_empty (f y)); cbn [negb]; [reflexivity|]. cbn [app map]. rewrite IH. reflexivity.
+Qed.
+
+Lemma for_sequence_w0 t :
+  for_sequence (tri_rows_w0 true t) = map (fun s => (s, PTFill)) (tri_scanlines t).
+Proof.
+  unfold tri_rows_w0, tri_scanlines, for_sequence, gen_new, gen_run.
+  destruct (rows (tri_bounding_box t)) as [y0 y1]. destruct (range y0 y1) as [|y r]; [reflexivity|].
+  cbn [map g_cur g_rows]. rewrite (gen_go_singletons (tri_scanline_intersection (sorted_clockwise t)) r), map_app.
+  destruct (sl_is_empty (tri_scanline_intersection (sorted_clockwise t) y)); reflexivity.
+Qed.
+
+Lemma for_sequence_w0_nofill t : for_sequence (tri_rows_w0 false t) = [] /\ first_rows_ok (tri_rows_w0 false t).
+Proof.
+  unfold tri_rows_w0, for_sequence, gen_new, gen_run, first_rows_ok.
+  destruct (rows (tri_bounding_box t)) as [y0 y1].
+  assert (G : forall ys, gen_go (map (fun y => if sl_is_empty (sl_new_empty y) then [] else [(sl_new_empty y, PTFill)]) ys) = []).
+  { intros ys. destruct ys; reflexivity. }
+  destruct (range y0 y1) as [|y [|y2 r]]; cbn [map g_cur g_rows gen_go app]; try (split; reflexivity).
+  split; [reflexivity | apply G].
+Qed.
+
+(* the first row of the bounding box always yields a scanline when there is a fill *)
+Lemma first_rows_ok_w0 t : first_rows_ok (tri_rows_w0 true t).
+Proof.
+  unfold tri_rows_w0, first_rows_ok. unfold rows. cbn [fst snd].
+  pose proof (sorted_bbox_coords t) as B. cbv zeta in B. destruct B as (_ & _ & B1 & _).
+  set (y1 := sat_add_i32 _ _). destruct (range (py (tl (tri_bounding_box t))) y1) as [|y r] eqn:E; [exact I|].
+  assert (Hy : y = py (tl (tri_bounding_box t))).
+  { unfold range in E. destruct (Z.to_nat _); [discriminate|]. cbn [range_from] in E. congruence. }
+  cbn [map].
+  rewrite (scanline_intersection_perm t _ y (sorted_clockwise_perm t)).
+  rewrite (tri_row_nonempty t y); [exact I|].
+  pose proof (sorted_ys t) as Hs. cbv zeta in Hs. lia.
 Qed.
 
 (* Styled<Triangle> with stroke width 0: points() in the fill colour (nothing without fill) *)
 Theorem tri_styled_pixels_w0_spec st t :
   tri_styled_pixels_w0 st t = colored (fill_color st) (tri_points t).
 Proof.
-  unfold tri_styled_pixels_w0. rewrite tri_styled_pixels_spec. unfold tri_pixels_ref, tri_gen_w0, tri_points.
-  unfold has_fill. destruct (fill_color st) as [c|] eqn:F.
-  - rewrite (flat_map_colored_map (fun s => s) _ st PTFill) by reflexivity. rewrite map_id.
-    unfold color_of. rewrite F. reflexivity.
-  - reflexivity.
+  unfold tri_styled_pixels_w0. rewrite tri_styled_pixels_spec. unfold has_fill, tri_points.
+  destruct (fill_color st) as [c|] eqn:F.
+  - rewrite (pixels_sequence_for _ (first_rows_ok_w0 t)), for_sequence_w0. cbn [colored].
+    apply tri_pixels_ref_fill. assumption.
+  - destruct (for_sequence_w0_nofill t) as [E Hf]. rewrite (pixels_sequence_for _ Hf), E. reflexivity.
 Qed.
 
 (* C02: transparent draws nothing, whatever the generator yields *)
-Theorem tri_transparent_draws_nothing st lines : is_transparent st = true ->
-  tri_draw_styled st lines = [] /\ tri_styled_pixels st lines = [].
+Theorem tri_transparent_draws_nothing st rows : is_transparent st = true ->
+  tri_draw_styled st (for_sequence rows) = [] /\ tri_styled_pixels st rows = [].
 Proof.
   intros T. split; [unfold tri_draw_styled; rewrite T; reflexivity|].
   rewrite tri_styled_pixels_spec. destruct (transparent_colors st T) as [E1 E2]. unfold tri_pixels_ref.
-  induction lines as [|[l k] r IH]; [reflexivity|]. cbn [flat_map fst snd]. rewrite IH.
+  induction (pixels_sequence rows) as [|[l k] r IH]; [reflexivity|]. cbn [flat_map fst snd]. rewrite IH.
   unfold color_of. destruct k; rewrite ?E1, ?E2; reflexivity.
 Qed.
 
@@ -376,17 +500,26 @@ Proof.
   unfold sl_ok, sbound. rewrite Ey. lia.
 Qed.
 
-Lemma tri_gen_w0_ok hf t : tri_ok t -> Forall (fun lk => sl_ok (fst lk)) (tri_gen_w0 hf t).
+Lemma tri_rows_w0_ok hf t : tri_ok t -> Forall (Forall (fun lk => sl_ok (fst lk))) (tri_rows_w0 hf t).
 Proof.
-  intros Hok. pose proof (tri_scanlines_ok t Hok) as H. unfold tri_gen_w0.
-  destruct hf; [|constructor]; apply Forall_forall; intros lk Hlk;
-    apply in_map_iff in Hlk; destruct Hlk as (s & <- & Hs); cbn [fst]; rewrite Forall_forall in H; apply H, Hs.
+  intros Hok. unfold tri_rows_w0. rewrite tri_rows by assumption. apply Forall_forall. intros row Hrow.
+  apply in_map_iff in Hrow. destruct Hrow as (y & <- & Hy). apply In_range in Hy.
+  destruct hf.
+  - destruct (sl_is_empty _) eqn:E; [constructor|]. constructor; [|constructor]. cbn [fst].
+    rewrite (scanline_intersection_perm t _ y (sorted_clockwise_perm t)).
+    pose proof (tri_scanlines_ok t Hok) as H. rewrite tri_scanlines_all in H by assumption.
+    rewrite Forall_forall in H. apply H. apply in_map. apply In_range. lia.
+  - cbn. constructor.
 Qed.
 
 (* draw() = pixels() for the fill-only triangle, generator included *)
 Theorem tri_w0_pixels_draw st t : tri_ok t ->
   flat_map fill_writes (tri_draw_styled_w0 st t) = tri_styled_pixels_w0 st t.
-Proof. intros Hok. apply tri_glue_pixels_draw, tri_gen_w0_ok, Hok. Qed.
+Proof.
+  intros Hok. unfold tri_draw_styled_w0, tri_styled_pixels_w0. apply tri_glue_pixels_draw.
+  - apply tri_rows_w0_ok. assumption.
+  - unfold has_fill. destruct (fill_color st); [apply first_rows_ok_w0 | apply for_sequence_w0_nofill].
+Qed.
 
 (* ---- thin polyline inside the bounding box of the primitive ------------------------------------- *)
 Lemma In_tl {A} (x : A) l : In x (List.tl l) -> In x l.
